@@ -1435,99 +1435,105 @@ func CheckC16(c *Ctx) {
 		}
 		nPre := 4 * 4 * 4 * 4
 		var walked atomic.Int64
-		c.Parallel("all-threat-x-environmental-configurations", nPre, 1, func(w *Worker, ci int) {
-			a := gen.KSparseAssign(w.R, v, 0) // random base, nothing optional
-			for _, m := range v.Metrics {
-				_ = m
-			}
-			for mI, me := range v.Metrics {
-				if me.Group == spec.GSupp {
-					a[mI] = uint8(w.R.Intn(len(me.Values)))
+		// thorough: six passes with different seeded base / supplemental values under the walk (a condition that also pins
+		// the supplemental metrics is met by one supplemental configuration in 2,160 per visit)
+		for pass := 0; pass < c.Pick(1, 6); pass++ {
+			c.Parallel(fmt.Sprintf("all-threat-x-environmental-configurations-pass%d", pass), nPre, 1, func(w *Worker, ci int) {
+				a := gen.KSparseAssign(w.R, v, 0) // random base, nothing optional
+				for _, m := range v.Metrics {
+					_ = m
 				}
-			}
-			k := ci
-			for _, m := range pre {
-				a[m] = uint8(k % 4)
-				k /= 4
-			}
-			o, fail := Build(api, a, HSetInOrder, w.R, nil)
-			if fail != "" {
-				c.Violate(Violation{Kind: "cannot-build-object", Version: v.Name, Expected: v.Canonical(a), Observed: fail})
-				return
-			}
-			tDef := a[pre[0]] != 0
-			preEnv := a[pre[1]] != 0 || a[pre[2]] != 0 || a[pre[3]] != 0
-			n := len(rest)
-			dig := make([]int, n)
-			foc := make([]int, n+1)
-			dir := make([]int, n)
-			for j := range foc {
-				foc[j] = j
-			}
-			for j := range dir {
-				dir[j] = 1
-			}
-			defined := 0
-			var cnt int64
-			for {
-				// visit
-				want := "CVSS-B"
-				if tDef {
-					want += "T"
-				}
-				if preEnv || defined > 0 {
-					want += "E"
-				}
-				got, p := api.SafeNomencl(o)
-				cnt++
-				if p != nil || got != want {
-					b := a.Clone()
-					for j, m := range rest {
-						b[m] = uint8(dig[j])
-					}
-					c.Violate(Violation{Kind: "wrong-nomenclature", Version: v.Name, Steps: []Step{{Op: "parse", S: v.Canonical(b)}, {Op: "nomenclature"}}, Expected: want + " for " + v.Canonical(b) + " (reached through a Gray-code walk of Set calls)", Observed: fmt.Sprint(got, p), Detail: map[string]any{"case": "all-configurations"}})
-					if c.nviolA.Load() > 200 {
-						break
+				for mI, me := range v.Metrics {
+					if me.Group == spec.GSupp {
+						a[mI] = uint8(w.R.Intn(len(me.Values)))
 					}
 				}
-				// every 2,048 steps one base or supplemental metric (which must not matter) is changed too
-				if cnt&2047 == 0 {
-					for tries := 0; tries < 4; tries++ {
-						mI := w.R.Intn(v.N())
-						if me := v.Metrics[mI]; me.Mandatory || me.Group == spec.GSupp {
-							a[mI] = uint8(w.R.Intn(len(me.Values)))
-							probe.SafeSet(o, me.Abv, me.Values[a[mI]])
+				k := ci
+				for _, m := range pre {
+					a[m] = uint8(k % 4)
+					k /= 4
+				}
+				o, fail := Build(api, a, HSetInOrder, w.R, nil)
+				if fail != "" {
+					c.Violate(Violation{Kind: "cannot-build-object", Version: v.Name, Expected: v.Canonical(a), Observed: fail})
+					return
+				}
+				tDef := a[pre[0]] != 0
+				preEnv := a[pre[1]] != 0 || a[pre[2]] != 0 || a[pre[3]] != 0
+				n := len(rest)
+				dig := make([]int, n)
+				foc := make([]int, n+1)
+				dir := make([]int, n)
+				for j := range foc {
+					foc[j] = j
+				}
+				for j := range dir {
+					dir[j] = 1
+				}
+				defined := 0
+				var cnt int64
+				for {
+					// visit
+					want := "CVSS-B"
+					if tDef {
+						want += "T"
+					}
+					if preEnv || defined > 0 {
+						want += "E"
+					}
+					got, p := api.SafeNomencl(o)
+					cnt++
+					if p != nil || got != want {
+						b := a.Clone()
+						for j, m := range rest {
+							b[m] = uint8(dig[j])
+						}
+						c.Violate(Violation{Kind: "wrong-nomenclature", Version: v.Name, Steps: []Step{{Op: "parse", S: v.Canonical(b)}, {Op: "nomenclature"}}, Expected: want + " for " + v.Canonical(b) + " (reached through a Gray-code walk of Set calls)", Observed: fmt.Sprint(got, p), Detail: map[string]any{"case": "all-configurations"}})
+						if c.nviolA.Load() > 200 {
 							break
 						}
 					}
+					// every 2,048 steps one base or supplemental metric (which must not matter) is changed too
+					if cnt&2047 == 0 {
+						for tries := 0; tries < 4; tries++ {
+							mI := w.R.Intn(v.N())
+							if me := v.Metrics[mI]; me.Mandatory || me.Group == spec.GSupp {
+								a[mI] = uint8(w.R.Intn(len(me.Values)))
+								probe.SafeSet(o, me.Abv, me.Values[a[mI]])
+								break
+							}
+						}
+					}
+					// next configuration: exactly one digit moves by one
+					j := foc[0]
+					foc[0] = 0
+					if j == n {
+						break
+					}
+					was := dig[j]
+					dig[j] += dir[j]
+					if dig[j] == 0 || dig[j] == len(v.Metrics[rest[j]].Values)-1 {
+						dir[j] = -dir[j]
+						foc[j] = foc[j+1]
+						foc[j+1] = j + 1
+					}
+					if was == 0 {
+						defined++
+					} else if dig[j] == 0 {
+						defined--
+					}
+					if err, p := probe.SafeSet(o, v.Metrics[rest[j]].Abv, v.Metrics[rest[j]].Values[dig[j]]); err != nil || p != nil {
+						c.Violate(Violation{Kind: "set-accept-mismatch", Version: v.Name, Expected: "legal Set succeeds", Observed: fmt.Sprint(err, p)})
+						break
+					}
 				}
-				// next configuration: exactly one digit moves by one
-				j := foc[0]
-				foc[0] = 0
-				if j == n {
-					break
+				w.EvalN(cnt)
+				if pass == 0 {
+					w.Acc[63] += cnt
 				}
-				was := dig[j]
-				dig[j] += dir[j]
-				if dig[j] == 0 || dig[j] == len(v.Metrics[rest[j]].Values)-1 {
-					dir[j] = -dir[j]
-					foc[j] = foc[j+1]
-					foc[j+1] = j + 1
-				}
-				if was == 0 {
-					defined++
-				} else if dig[j] == 0 {
-					defined--
-				}
-				if err, p := probe.SafeSet(o, v.Metrics[rest[j]].Abv, v.Metrics[rest[j]].Values[dig[j]]); err != nil || p != nil {
-					c.Violate(Violation{Kind: "set-accept-mismatch", Version: v.Name, Expected: "legal Set succeeds", Observed: fmt.Sprint(err, p)})
-					break
-				}
-			}
-			w.EvalN(cnt)
-			w.Acc[63] += cnt
-			walked.Add(cnt)
-		})
+				walked.Add(cnt)
+			})
+		}
 		c.Extra["threat_x_environmental_configurations_walked"] = walked.Load()
 		c.Floor("threat x environmental configurations", walked.Load(), 1179648000)
 	}
